@@ -10,6 +10,7 @@
 From Coq Require Import List NArith ZArith Bool Arith.
 Import ListNotations.
 From V Require Import Base.Prelude Base.TplRes Gen.Tokens Gen.TplCl Model.C31 Model.Tpl.
+Local Open Scope nat_scope.
 
 Inductive uq :=
 | UqErr                                               (* err != nil *)
